@@ -645,6 +645,16 @@ pub fn model_case(cfg: ModelCfg) -> impl Strategy<Value = ModelCase> {
     raw_model(cfg).prop_map(|r| resolve_model(&r))
 }
 
+/// Models and texts over ASCII letters and digits only: texts in which byte and character
+/// positions coincide are a class of their own for every position table and "is_ascii" shortcut.
+pub fn model_case_ascii(cfg: ModelCfg) -> impl Strategy<Value = ModelCase> {
+    raw_model(cfg).prop_map(|mut r| {
+        r.palette.iter_mut().for_each(|p| p.0 = 0);
+        r.hostile = false;
+        resolve_model(&r)
+    })
+}
+
 // ------------------------------------------------------------------------------------------
 // annotated sentences
 
